@@ -35,7 +35,7 @@ def load_mutants():
             if os.path.exists(meta) and os.path.exists(patch):
                 m = json.load(open(meta))
                 ms.append({'id': 'seeded/' + d, 'properties': m.get('checks') or [m['property']], 'patch': patch,
-                           'note': m.get('needs', ''), 'out_of_reach': m.get('out_of_reach')})
+                           'note': m.get('needs', ''), 'out_of_reach': m.get('out_of_reach'), 'tier': m.get('tier')})
     return ms
 
 
@@ -80,7 +80,7 @@ def run_one(m, tier, with_tests):
             t0 = time.monotonic()
             env = dict(os.environ, RXSCI_REPO=d, VERIF_NO_COVERAGE='1', VERIF_EVIDENCE_DIR=ev, VERIF_REPLAY_DIR=ev,
                        PYTHONHASHSEED='0')
-            r = subprocess.run([PY, '-m', 'rxverif.run', pid, '--tier', tier], cwd=VERIF, capture_output=True,
+            r = subprocess.run([PY, '-m', 'rxverif.run', pid, '--tier', m.get('tier') or tier], cwd=VERIF, capture_output=True,
                                text=True, env=env, timeout=3600)
             lines = [ln for ln in r.stdout.splitlines() if ln.startswith(('VIOLATION', 'INCONCLUSIVE', '  kind='))]
             res['checks'][pid] = {'rc': r.returncode, 'caught': r.returncode == 1, 'wall_s': round(time.monotonic() - t0, 1),
